@@ -1,4 +1,4 @@
-import CattrsModel.Conv.StructDetailed
+import CattrsModel.Lemmas.Lit
 /-!
 # Unfolding lemmas for the per-field recursions (the definitions match on a lookup *with a proof*,
 for termination; these lemmas expose the three cases as plain equations)
